@@ -906,4 +906,83 @@ theorem loadCsvCall_image {α : Type} (m : Meta) (files : List (DataFile α)) (a
   | error e => rfl
   | ok im => cases h2 : o.fullV <;> rfl
 
+/-! ## shapes, pixels of `cps`, the memo table, listing order (helpers of the composed theorems) -/
+
+theorem allSome_length {β : Type} (l : List (Option β)) (r : List β) (h : allSome l = some r) : r.length = l.length := by
+  rw [allSome_eq_some l r h]; simp
+
+theorem allSome_mem {β : Type} (l : List (Option β)) (r : List β) (h : allSome l = some r) (x : β) (hx : x ∈ r) :
+    some x ∈ l := by
+  rw [allSome_eq_some l r h]; exact List.mem_map.mpr ⟨x, hx, rfl⟩
+
+theorem csvLineSpec_shape (ncol nscan : Nat) (csv : Option CsvFile) (hrows : ∀ c, csv = some c → c.rows.length = nscan)
+    (cols : List (List Rat)) (h : csvLineSpec ncol nscan csv = some cols) :
+    cols.length = ncol ∧ ∀ col ∈ cols, col.length = nscan := by
+  cases csv with
+  | none =>
+    simp only [csvLineSpec, Option.some.injEq] at h
+    subst h
+    simp
+  | some c =>
+    simp only [csvLineSpec] at h
+    refine ⟨by rw [allSome_length _ _ h]; simp, ?_⟩
+    intro col hcol
+    have := allSome_mem _ _ h col hcol
+    simp only [List.mem_map, List.mem_range] at this
+    obtain ⟨j, _, hj⟩ := this
+    rw [allSome_length _ _ hj]
+    simp [hrows c rfl]
+
+theorem px_some {β : Type} (img : List (List (List β))) (i j r : Nat) (x : β) (h : px img i j r = some x) :
+    ∃ la ca, img[i]? = some la ∧ la[j]? = some ca ∧ ca[r]? = some x := by
+  unfold px at h
+  cases hi : img[i]? with
+  | none => rw [hi] at h; simp at h
+  | some la =>
+    rw [hi] at h
+    simp only [Option.bind_some] at h
+    cases hj : la[j]? with
+    | none => rw [hj] at h; simp at h
+    | some ca =>
+      rw [hj] at h
+      simp only [Option.bind_some] at h
+      exact ⟨la, ca, rfl, hj, h⟩
+
+theorem cps_line (ms : List MassInfo) (im : Image Rat) (i : Nat) (la : List (List Rat)) (h : (cps ms im).img[i]? = some la) :
+    ∃ line, im.img[i]? = some line ∧ la.length = min line.length ms.length ∧
+      ∀ ca ∈ la, ∃ col ∈ line, ca.length = col.length := by
+  simp only [cps, List.getElem?_map] at h
+  cases hl : im.img[i]? with
+  | none => rw [hl] at h; simp at h
+  | some line =>
+    rw [hl] at h
+    simp only [Option.map_some, Option.some.injEq] at h
+    subst h
+    refine ⟨line, rfl, by simp, ?_⟩
+    intro ca hca
+    simp only [List.mem_map] at hca
+    obtain ⟨⟨col, mj⟩, hz, rfl⟩ := hca
+    exact ⟨col, (List.of_mem_zip hz).1, by simp⟩
+
+theorem load_eq_of_eq {γ : Type} (b b' c c' : Except Err γ) (hb : b = b') (hc : c = c') : load b c = load b' c' := by
+  rw [hb, hc]
+
+theorem memoGet_mem {κ β : Type} [DecidableEq κ] (k : κ) (l : List (κ × β)) (v : β) (h : memoGet k l = some v) :
+    (k, v) ∈ l := by
+  induction l with
+  | nil => simp [memoGet] at h
+  | cons p rest ih =>
+    obtain ⟨k', v'⟩ := p
+    unfold memoGet at h
+    split at h
+    · rename_i hk
+      simp only [Option.some.injEq] at h
+      subst hk; subst h
+      simp
+    · exact List.mem_cons_of_mem _ (ih h)
+
+theorem exists_perm (m₁ m₂ : Meta) (h : m₁.listing.Perm m₂.listing) (n : Name) : m₁.exists n = m₂.exists n := by
+  unfold Meta.exists
+  exact h.any_eq
+
 end Pew.Agilent
